@@ -3,6 +3,7 @@ package c07
 
 import (
 	"fmt"
+	"math"
 
 	"github.com/EliCDavis/polyform/formats/stl"
 	"github.com/EliCDavis/polyform/modeling"
@@ -100,5 +101,112 @@ func ZZ_C07_ReadWrite() {
 		for i := range file {
 			zz.Assert(out.B[i] == file[i], "Read then Write reproduces the bytes")
 		}
+	}
+}
+
+func putF32(b []byte, off int, f float32) {
+	u := math.Float32bits(f)
+	b[off], b[off+1], b[off+2], b[off+3] = byte(u), byte(u>>8), byte(u>>16), byte(u>>24)
+}
+
+func getF32(b []byte, off int) float32 { return math.Float32frombits(u32le(b, off)) }
+
+// reading facet normals: a stored non-zero normal is returned as is; a zero normal is replaced by the unit
+// geometric normal (v2-v1)x(v3-v1). The normal bytes of every record are symbolic (so which facets store a
+// normal, and in which order they come, is decided by the solver); the vertices are a concrete triangle per
+// record.
+func ZZ_C07_ReadNormals() {
+	T := 1 + zz.Choose("T", zz.Bound("T"))
+	file := make([]byte, 84+50*T)
+	file[80] = byte(T)
+	tris := [][3][3]float32{
+		{{0, 0, 0}, {1, 0, 0}, {0, 1, 0}}, // normal +z
+		{{0, 0, 0}, {0, 1, 0}, {0, 0, 2}}, // normal +x
+		{{1, 1, 1}, {1, 1, 3}, {4, 1, 1}}, // normal +y
+	}
+	geo := [][3]float64{{0, 0, 1}, {1, 0, 0}, {0, 1, 0}}
+	nb := zz.Bytes("normals", 12*T)
+	for t := 0; t < T; t++ {
+		off := 84 + 50*t
+		copy(file[off:off+12], nb[12*t:12*t+12])
+		for v := 0; v < 3; v++ {
+			for c := 0; c < 3; c++ {
+				putF32(file, off+12+12*v+4*c, tris[t%3][v][c])
+			}
+		}
+	}
+	// stored normals are finite
+	for t := 0; t < T; t++ {
+		for c := 0; c < 3; c++ {
+			f := getF32(nb, 12*t+4*c)
+			zz.Assume(f == f)
+			zz.Assume(f < 1e30 && f > -1e30)
+		}
+	}
+	zz.Reach("input")
+	m, err := stl.ReadMesh(&zz.Buf{B: file, Limit: -1})
+	zz.Assert(err == nil, "ReadMesh failed on a well-formed file")
+	if err != nil {
+		return
+	}
+	anyStored := false
+	stored := make([]bool, T)
+	for t := 0; t < T; t++ {
+		x, y, z := getF32(nb, 12*t), getF32(nb, 12*t+4), getF32(nb, 12*t+8)
+		stored[t] = !(x == 0 && y == 0 && z == 0)
+		anyStored = anyStored || stored[t]
+	}
+	if !anyStored {
+		// no facet stores a normal: the mesh may omit the attribute; nothing more to compare
+		zz.Reach("none-stored")
+		return
+	}
+	zz.Assert(m.HasFloat3Attribute(modeling.NormalAttribute), "normals are reported when some facet stores one")
+	if !m.HasFloat3Attribute(modeling.NormalAttribute) {
+		return
+	}
+	n, idx := m.Float3Attribute(modeling.NormalAttribute), m.Indices()
+	for t := 0; t < T; t++ {
+		for c := 0; c < 3; c++ {
+			g := n.At(idx.At(3*t + c))
+			if stored[t] {
+				zz.Assert(g.X() == float64(getF32(nb, 12*t)) && g.Y() == float64(getF32(nb, 12*t+4)) && g.Z() == float64(getF32(nb, 12*t+8)), "a stored facet normal is returned for all three corners")
+			} else {
+				w := geo[t%3]
+				zz.Assert(g.X() == w[0] && g.Y() == w[1] && g.Z() == w[2], "a facet without a stored normal gets the unit geometric normal")
+			}
+		}
+	}
+	zz.Reach("checked")
+}
+
+// writing facet normals: the normalised mean of the three corner normals (corner normals from a concrete
+// palette, assignment and indices chosen symbolically by enumeration)
+func ZZ_C07_WriteNormals() {
+	pal := []vector3.Float64{vector3.New(0., 0., 1.), vector3.New(1., 0., 0.), vector3.New(0., 3., 4.), vector3.New(-1., -2., 2.)}
+	V := 3
+	pos := []vector3.Float64{vector3.New(0., 0., 0.), vector3.New(1., 0., 0.), vector3.New(0., 1., 0.)}
+	nrm := make([]vector3.Float64, V)
+	for i := range nrm {
+		nrm[i] = pal[zz.Choose(fmt.Sprintf("n%d", i), len(pal))]
+	}
+	idx := []int{zz.Choose("i0", V), zz.Choose("i1", V), zz.Choose("i2", V)}
+	m := modeling.NewTriangleMesh(idx).SetFloat3Attribute(modeling.PositionAttribute, pos).SetFloat3Attribute(modeling.NormalAttribute, nrm)
+	zz.Reach("input")
+	buf := zz.NewBuf()
+	err := stl.WriteMesh(buf, m)
+	zz.Assert(err == nil && buf.Len() == 134, "one record written")
+	if err != nil || buf.Len() != 134 {
+		return
+	}
+	s := nrm[idx[0]].Add(nrm[idx[1]]).Add(nrm[idx[2]])
+	l := math.Sqrt(s.X()*s.X() + s.Y()*s.Y() + s.Z()*s.Z())
+	if l < 1e-9 {
+		return // opposite normals cancel: no direction to compare
+	}
+	for c := 0; c < 3; c++ {
+		got := float64(getF32(buf.B, 84+4*c))
+		want := s.Component(c) / l
+		zz.Assert(got-want <= 1e-6 && want-got <= 1e-6, "facet normal = normalised mean of the corner normals")
 	}
 }
